@@ -22,6 +22,7 @@
 
 import itertools
 from .yp_prolog_visitor import *
+from .errors import ClauseTooLargeError
 
 class YPCodeExpr:
     def __init__(self,expr):
@@ -419,6 +420,9 @@ class YPPrologCompiler:
         variables = expr.variables
         return self.filter_free_variables(variables)
 
+# CPython refuses to compile more than this many statically nested blocks
+_MAX_NESTED_BLOCKS = 20
+
 _output_header = '''#
 # This code is generated by the yldprolog compiler.
 #
@@ -474,7 +478,13 @@ class YPPythonCodeGenerator:
             lines.append(self.l(false_code))
             self.dedent()
         return self.lines(*lines)
+    def _check_nesting(self):
+        # every goal of a clause becomes one nested loop
+        if self.indentation > _MAX_NESTED_BLOCKS:
+            raise ClauseTooLargeError(getattr(self.context, 'current_source_file', ''),
+                'clause too large: it needs more than %d nested blocks' % _MAX_NESTED_BLOCKS)
     def generate_foreach(self,loop):
+        self._check_nesting()
         loop_var = self._get_loop_var()
         expression = loop.loop_expression.generate(self)
         s = self.l("for %s in %s:" % (loop_var,expression))
@@ -508,6 +518,7 @@ class YPPythonCodeGenerator:
         ## if body != []
         # for _ in [1]:
         if bb.body != []:
+            self._check_nesting()
             lines.append( self.l("for _ in [1]:") )
             self.indent()
         #      {{ body }}
